@@ -65,7 +65,7 @@ def run(ctx):
     c15.model_check(ctx, True, consts=PHOS_CONSTS, invariants=["SitesValid", "NoRepeats", "CacheSound", "HistoryIndependent"],
                     properties=["SetSemantics", "ClearEmpties", "SeqImmutable", "SitesOnlyGrowOrClear", "ReadOnlyFrame"])
     hc = dict(PHOS_CONSTS, SiteArgs="@MCSiteArgsPhosH")
-    res = c15.histories(ctx, ctx.pick(3, 4), True, consts=hc)
+    res = c15.histories(ctx, 4, True, consts=hc)
     ctx.exhaustive = True
     trs = []
     seen = {}
@@ -97,10 +97,12 @@ def run(ctx):
         o = lc.SP(seq)
         N = len(seq)
         ev = [{"kind": "construct", "obj": 1, "seq": list(seq), "post": {"objs": [objmodel.project(o)], "spGrps": 0}}]
-        for _ in range(ctx.rng.randint(2, 7)):
+        favourites = [ctx.rng.randint(1, N) for _ in range(3)] + [k + 1 for k, ch in enumerate(seq) if ch in "STY"][:4]
+        for _ in range(ctx.rng.randint(3, 9)):
             r = ctx.rng.random()
-            if r < 0.7:
-                arg = [ctx.rng.choice([ctx.rng.randint(-3, N + 3), ctx.rng.randint(1, N), 0, N, N + 1, -1, 1]) for _ in range(ctx.rng.randint(0, 5))]
+            if r < 0.6:
+                # positions are re-requested (also after a clear): a small set of favourites plus arbitrary integers
+                arg = [ctx.rng.choice(favourites + [ctx.rng.randint(-3, N + 3), 0, N, N + 1, -1, 1]) for _ in range(ctx.rng.randint(0, 5))]
                 form = ctx.rng.choice(["list", "tuple", "int", "np-list", "np-array"])
                 if form == "int" and arg:
                     arg = arg[:1]
